@@ -334,7 +334,7 @@ package types
 //@     invariant forall i int :: 0 <= i && i < iter ==> commit.Signatures[i].BlockIDFlag >= 1 && commit.Signatures[i].BlockIDFlag <= 3
 
 //@ func (vs *ValidatorSet) VerifyCommit(chainID string, blockID BlockID, height uint64, commit *Commit) (err error)
-//@   for C02 C01 C13
+//@   for C02 C01 C13 C18
 //@   requires vs != nil ==> wfVals(vs)
 //@   requires height >= 1
 //@   nooverflow
@@ -589,7 +589,7 @@ package types
 // Verified aspect: the decoded proposer is the record's proposer (its power and priority), the members
 // are the record's members in order, the total is the record's total.
 //@ aspect func ValidatorSetFromProto(vp *kproto.ValidatorSet) (r *ValidatorSet, err error)
-//@   for C14
+//@   for C14 C12
 //@   requires vp != nil ==> (forall i int :: 0 <= i && i < len(vp.Validators) ==> vp.Validators[i] != nil)
 //@   modifies *
 //@   opt assumecallreqs
@@ -1069,6 +1069,13 @@ package types
 //@   ensures [nilRejected] dp == nil ==> err != nil
 //@   loop 1:
 //@     invariant 0 <= iter
+
+// ... and reading the slim form puts exactly those two back: an omitted root is the EMPTY ROOT, an omitted
+// code hash is the EMPTY CODE HASH.
+//@ func FullAccount(data []byte) (r *StateAccount, err error)
+//@   for C16
+//@   modifies *
+//@   atstore StateAccount.CodeHash requires [omittedCodeHashIsTheEmptyCodeHash] len(slim.CodeHash) == 0 ==> len(new) == 32 && (forall i int :: 0 <= i && i < 32 ==> new[i] == EmptyCodeHash[i])
 
 // The slim form drops exactly the two sentinel values (the empty root and the empty code hash): an
 // all-zero root is a value like any other and stays.
